@@ -16,7 +16,7 @@ SPEC = {
         # Maintenance loop and its snapshot file (C10's engine)
         {"name": "nflog", "pkg": "./nflog", "timeout_quick": 90, "search_cases": 30000},
         # repeats must survive a rejected reload: the running dispatcher stays in place (C17's engine: the real reload closure)
-        {"name": "reload", "pkg": "./reload", "search_cases": 4, "timeout_quick": 400, "timeout_thorough": 900, "timeout_search": 400, "only": ["failed_reload_keeps_running", "failed_reload_keeps_config"]},
+        {"name": "reload", "pkg": "./reload", "search_cases": 4, "timeout_quick": 400, "timeout_thorough": 900, "timeout_search": 400, "only": ["failed_reload_keeps_running", "failed_reload_keeps_config", "repeat_on_time"]},
         # an orphaned live group (maintenance racing the re-creation of a group) keeps notifying on its own: C06's scheduled engine
         {"name": "groupsched", "pkg": "./groupsched", "search_cases": 3000, "quick_cases": 600, "only": ["no_orphan_live_group"]},
     ],
